@@ -136,23 +136,38 @@ Proof.
 Qed.
 
 (* ---- C02: one item at a time ---- *)
+(* thread t is inside the callout of item i: on the bound thread (also while the work item itself is inside a
+   dispatch_async_f onto the main queue: the push / wakeup program points with continuation KCall i), or as the worker
+   that drains the released lane *)
 Definition in_callout (s : mst) (t i : Z) : Prop :=
-  (exists w mo, mpcs s t = MB_incall i w mo) \/ (exists o mo, pcs (lane s) t = PW_incall o i mo).
+  (exists w mo, mpcs s t = MB_incall i w mo \/ kont (mpcs s t) = Some (KCall i w mo)) \/
+  (exists o mo, pcs (lane s) t = PW_incall o i mo).
+
+Lemma incall_class p i w mo :
+  p = MB_incall i w mo \/ kont p = Some (KCall i w mo) -> only_main p = true /\ mclass p = mclass (MB_incall i w mo).
+Proof.
+  intros [->|E]; [split; reflexivity|].
+  destruct p; cbn [kont] in E; try discriminate E; injection E as ->; split; reflexivity.
+Qed.
 
 Theorem mainq_exclusive s t1 i1 t2 i2 :
   reach s -> in_callout s t1 i1 -> in_callout s t2 i2 -> t1 = t2 /\ i1 = i2 /\ running (lane s) = Some (t1, i1).
 Proof.
   intros R C1 C2. pose proof (Inv_reachable m prio rb s Vm Hrb R) as I. pose proof I as (T & Y & V & G).
-  assert (Main : forall t i w mo, mpcs s t = MB_incall i w mo -> t = mtid s /\ mcl s = mclass (MB_incall i w mo)).
-  { intros t i w mo Hpc. apply (main_thread s t _ I Hpc). reflexivity. }
+  assert (Main : forall t i w mo, mpcs s t = MB_incall i w mo \/ kont (mpcs s t) = Some (KCall i w mo) ->
+                 t = mtid s /\ mcl s = mclass (MB_incall i w mo)).
+  { intros t i w mo Hpc. destruct (incall_class _ _ _ _ Hpc) as [Om Ec]. rewrite <- Ec. apply (main_thread s t _ I eq_refl). exact Om. }
   assert (Lane : forall t o i mo, pcs (lane s) t = PW_incall o i mo -> token (lane s) = Some (Some t)).
   { intros t o i mo Hlp. destruct (T t) as ((Tt & _) & _). apply Tt. rewrite Hlp. reflexivity. }
-  assert (NoMix : forall t i w mo t' o i' mo', mpcs s t = MB_incall i w mo -> pcs (lane s) t' = PW_incall o i' mo' -> False).
+  assert (NoMix : forall t i w mo t' o i' mo', mpcs s t = MB_incall i w mo \/ kont (mpcs s t) = Some (KCall i w mo) ->
+                  pcs (lane s) t' = PW_incall o i' mo' -> False).
   { intros t i w mo t' o i' mo' Hpc Hlp. destruct (Main _ _ _ _ Hpc) as [_ Ec]. rewrite Ec in G. cbn [mclass c_lane] in G.
     destruct G as [r G]. rewrite (a_token s r G) in *. pose proof (Lane _ _ _ _ Hlp). congruence. }
   destruct C1 as [(w1 & m1 & P1)|(o1 & m1 & P1)]; destruct C2 as [(w2 & m2 & P2)|(o2 & m2 & P2)].
-  - destruct (Main _ _ _ _ P1) as [E1 Ec]. destruct (Main _ _ _ _ P2) as [E2 _]. assert (Et : t1 = t2) by congruence.
-    assert (Ei : i1 = i2) by (rewrite <- Et in P2; congruence). split; [exact Et|]. split; [exact Ei|].
+  - destruct (Main _ _ _ _ P1) as [E1 Ec]. destruct (Main _ _ _ _ P2) as [E2 Ec2]. assert (Et : t1 = t2) by congruence.
+    assert (Ei : i1 = i2).
+    { rewrite Ec in Ec2. apply (f_equal c_view) in Ec2. cbn [mclass c_view] in Ec2. congruence. }
+    split; [exact Et|]. split; [exact Ei|].
     rewrite Ec in G. cbn [mclass c_lane] in G. destruct G as [r G]. rewrite (a_running s r G), Ec, E1. reflexivity.
   - destruct (NoMix _ _ _ _ _ _ _ _ P1 P2).
   - destruct (NoMix _ _ _ _ _ _ _ _ P2 P1).
@@ -169,7 +184,7 @@ Theorem mainq_callouts_on_main_thread s t i :
 Proof.
   intros R CL C. pose proof (Inv_reachable m prio rb s Vm Hrb R) as I. pose proof I as (T & Y & V & G).
   rewrite <- (reach_mtid s R). destruct C as [(w & mo & P)|(o & mo & P)].
-  - apply (main_thread s t _ I P). reflexivity.
+  - destruct (incall_class _ _ _ _ P) as [Om _]. apply (main_thread s t _ I eq_refl). exact Om.
   - exfalso. rewrite CL in G. destruct G as [r G]. destruct (T t) as ((Tt & _) & _).
     assert (token (lane s) = Some (Some t)) by (apply Tt; rewrite P; reflexivity). rewrite (a_token s r G) in H. discriminate.
 Qed.
@@ -220,6 +235,18 @@ Proof.
   rewrite Ec in G. cbn [mclass kont c_lane] in G. destruct G as [r G].
   destruct (a_strand s r G) as [H|[H|H]]; try (rewrite Ec; reflexivity); try exact Hne; [left; exact H | | right; exact H].
   rewrite Ec in H. discriminate H.
+Qed.
+
+(* the same at ANY program point of the bound thread before dispatch_main(): inside the drain (c_see: from the test of
+   dq_items_tail to the return of the exit wakeup dx_wakeup(dq, 0, 0): this covers a work item that consumed the poke
+   in a nested service of the handle, and a work item that submits to the main queue itself) the pending wake-up is
+   the drain's own exit wakeup *)
+Theorem mainq_not_stranded_any s :
+  reach s -> c_lane (mcl s) = false -> c_clean (mcl s) = false -> lst (lane s) <> [] ->
+  0 < evfd s \/ c_see (mcl s) = true \/ exists t, poker s t.
+Proof.
+  intros R CL CC Hne. pose proof (Inv_reachable m prio rb s Vm Hrb R) as (T & Y & V & G).
+  rewrite CL in G. destruct G as [r G]. exact (a_strand s r G CC Hne).
 Qed.
 
 Definition quiescent (s : mst) : Prop := forall t, mpcs s t = MIdle /\ pcs (lane s) t = Idle.
@@ -379,4 +406,28 @@ Lemma demo_final :
 Proof.
   eexists. split; [vm_compute; reflexivity|]. split; [|repeat split].
   apply (mrun_reach 100 0 1 demo_acts (minit 100 0 1)); [apply reach_init; reflexivity | reflexivity | vm_compute; reflexivity].
+Qed.
+
+(* a work item that submits to the main queue from inside its callout, as the LAST item of a drain pass: thread 5 pushes
+   item 0, the bound thread 100 services the handle and begins the callout of item 0 (nothing left in its snapshot, the
+   list is empty); inside the callout it calls dispatch_async_f(main queue): tail exchange onto the empty list, head
+   store, MAKE_DIRTY wakeup on the thread-bound way: it pokes its own eventfd (counter 1) and returns into the callout;
+   the callout ends, the drain's exit wakeup finds the list non-empty and pokes again; back in the run loop the handle
+   is readable, the second service pass runs item 1; at rest everything ran in order and the handle is not readable *)
+Definition demo_resub1 : list mact :=
+  [MBegin 5 (MAsync 0)] ++ demo_steps 5 9 ++ [MBegin 100 MService] ++ demo_steps 100 8 ++
+  [MBegin 100 (MAsync 0)] ++ demo_steps 100 9.
+Definition demo_resub2 : list mact := demo_resub1 ++ demo_steps 100 9 ++ [MBegin 100 MService] ++ demo_steps 100 16.
+
+Lemma demo_resubmit :
+  (exists s, mrun (minit 100 0 1) demo_resub1 = Some s /\ mreach 100 0 1 s /\
+             mpcs s 100 = MB_incall 0 0 false /\ running (lane s) = Some (100, 0) /\ map e_id (lst (lane s)) = [1] /\
+             snap s = [] /\ evfd s = 1) /\
+  (exists s, mrun (minit 100 0 1) demo_resub2 = Some s /\ mreach 100 0 1 s /\
+             quiescent_dec s [5] = true /\ mpcs s 100 = MIdle /\ started (lane s) = [1; 0] /\ mainran s = [1; 0] /\
+             finished s = [1; 0] /\ lst (lane s) = [] /\ evfd s = 0 /\ bound s = true).
+Proof.
+  split; (eexists; split; [vm_compute; reflexivity|]; split; [|repeat split]).
+  - apply (mrun_reach 100 0 1 demo_resub1 (minit 100 0 1)); [apply reach_init; reflexivity | reflexivity | vm_compute; reflexivity].
+  - apply (mrun_reach 100 0 1 demo_resub2 (minit 100 0 1)); [apply reach_init; reflexivity | reflexivity | vm_compute; reflexivity].
 Qed.
